@@ -33,7 +33,7 @@ BAD_NAMES = ['LU', 'Pinv', 'foo', 'cgnr', 'cr', 'fgmres', 'pinv3', 'spsolve', 'g
 
 META = {
     'rule': 'case = (matrix, solver spec, call history).  Matrices (n = 1..8, exact dyadic entries): SPD (Poisson 1-D/2-D, '
-            'B B^T + D, diagonally dominant), nonsymmetric nonsingular (dominant, triangular, scaled permutations), '
+            'B B^T + D, diagonally dominant, badly scaled D K D with cond up to 1e5), nonsymmetric nonsingular (dominant, triangular, scaled permutations), '
             'singular (low rank, Neumann Laplacians), zero rows+columns embedded in a nonsingular core (with and without '
             'explicitly stored zeros), zero column only / zero row only, 1x1, complex Hermitian PD / nonsymmetric / '
             'singular, matrices without stored entries, matrices of stored zeros, coarsest matrices of real SA / RS '
@@ -239,7 +239,7 @@ def _phases(rng, n):
 def gen_matrix(rng, cls=None):
     classes = ['spd'] * 4 + ['nonsym'] * 3 + ['singular'] * 3 + ['zrc'] * 3 + ['zrc_explicit'] * 2 + ['one'] * 2 + \
               ['hpd_c'] * 3 + ['nonsym_c'] * 2 + ['singular_c', 'zrc_c', 'empty', 'empty', 'stored_zero', 'hier', 'hier',
-                                                  'zcol_only', 'zrow_only', 'spd_explicit']
+                                                  'zcol_only', 'zrow_only', 'spd_explicit', 'graded', 'graded']
     cls = cls or classes[int(rng.integers(len(classes)))]
     fmt = 'csr' if rng.random() < 0.65 else ['csc', 'bsr', 'coo', 'bsr2'][int(rng.integers(4))]
     explicit = ()
@@ -251,6 +251,12 @@ def gen_matrix(rng, cls=None):
         explicit = [(int(rng.integers(n)), int(rng.integers(n))) for _ in range(3)]
     elif cls == 'nonsym':
         M = _nonsym(rng)
+    elif cls == 'graded':
+        # badly scaled but exactly representable: D K D with D = diag(2^-k), condition up to ~1e5
+        K = _spd(rng) if rng.random() < 0.6 else _nonsym(rng)
+        n = K.shape[0]
+        d = 2.0 ** (-rng.integers(0, 4, size=n).cumsum() % 9)
+        M = (d[:, None] * K) * (d[None, :] if rng.random() < 0.7 else 1.0)
     elif cls == 'singular':
         M = _singular(rng)
     elif cls in ('zrc', 'zrc_explicit', 'zrc_c'):
